@@ -34,12 +34,34 @@ LEVEL_TEXT = ('Each generated program is built through every route and the resul
               'attribute and by full-state snapshots after evaluation and solution on identical data.')
 LEVEL_NOTE = 'Trusted: CPython exec; the snapshot function. Not covered: converters that are not pure functions of the symbol.'
 
-CONVERTERS = ['default', 'identity', 'wrap-if', 'comment-prefix', 'try-guard', 'assert-guard', 'debug-guard']
+CONVERTERS = ['default', 'identity', 'wrap-if', 'comment-prefix', 'try-guard', 'assert-guard', 'debug-guard', 'stateful']
+
+
+class StatefulConverter:
+    """A callable object: what it inserts depends on its current `tag` (edited by the caller between builds)."""
+
+    def __init__(self, log):
+        self.tag = 'first'
+        self.log = log
+
+    def __call__(self, symbol):
+        self.log.append(symbol.name)
+        return f'# {self.tag}\n' + symbol.code + (f'\n{self.tag}_marker = 1' if self.tag != 'first' else '')
+
+
+_STATEFUL = {}
+
 
 
 def make_converter(kind, log):
     if kind == 'default':
         return None
+    if kind == 'stateful':
+        # the SAME object for every build of this check process; its state is advanced before each use
+        conv = _STATEFUL.setdefault('conv', StatefulConverter(log))
+        conv.log = log
+        conv.tag = 'state%d' % (_STATEFUL.get('n', 0) % 3)
+        return conv
 
     def conv(symbol):
         log.append(symbol.name)
@@ -97,6 +119,12 @@ def check_case(case):
 
     expected_calls = [s.name for s in symbols
                       if s.type in (Type.ENDOGENOUS, Type.VERBATIM) and s.equation is not None and s.code is not None]
+    if kind == 'stateful':
+        # an earlier build with the same symbols, options and converter object, in another state of the converter
+        _STATEFUL['n'] = _STATEFUL.get('n', 0) + 1
+        for hints in (True, False):
+            attempt(fsic.build_model, symbols, converter=make_converter(kind, []), with_type_hints=hints, **opts)
+        _STATEFUL['n'] += 1
     routes = {}
     texts = {}
     for hints in (True, False):
